@@ -7,6 +7,6 @@ CONSTANTS
   UseSched = TRUE
   CondErr = TRUE
 SPECIFICATION Spec
-INVARIANTS NoPanic NoStartAfterCancel InterruptedReportsError DoneHasResult CancelReturnedMeansIdle
-PROPERTIES CancelReturns ScheduleReturns
+INVARIANTS NoPanic NoStartAfterCancel InterruptedReportsError DoneHasResult CancelReturnedMeansIdle InflightIsCount
+PROPERTIES CancelReturns ScheduleReturns FlatRefinement
 CHECK_DEADLOCK FALSE
